@@ -27,3 +27,13 @@ func (p *Process) notifyDaemonStopped() {
 func (p *Process) isDaemonLaunched() bool {
 	return p.procConf.IsDaemon && p.procState.ExitCode == 0
 }
+
+func (p *Process) setLaunchedUnlessTerminating() {
+	p.stateMtx.Lock()
+	defer p.stateMtx.Unlock()
+	if p.procState.Status == types.ProcessStateTerminating {
+		return
+	}
+	p.procState.Status = types.ProcessStateLaunched
+	p.onStateChange(types.ProcessStateLaunched)
+}
